@@ -299,6 +299,25 @@ func (p c05) Run(c core.Case) core.Result {
 	return r
 }
 
+type callRec struct {
+	id, call  string
+	t0, t1    int64
+	rtok, rid string
+	err       error
+	ctxEnded  bool // the call's context had ended when it returned (whatever it returned)
+}
+
+// c05cancelledBefore: some call of the history whose context ended had started before rec returned (such a call may
+// still have returned a response: one that arrived while it was giving up).
+func c05cancelledBefore(recs []callRec, rec callRec) bool {
+	for _, o := range recs {
+		if o.call != rec.call && o.ctxEnded && o.t0 <= rec.t1 {
+			return true
+		}
+	}
+	return false
+}
+
 func c05inUse(err error) bool {
 	return err != nil && strings.Contains(err.Error(), "already in use")
 }
@@ -533,12 +552,6 @@ func (p c05) free(r *core.Result, g *c05rig, transport string, seed uint64, h in
 	pool := 1 + rng.Intn(4)
 	perCaller := 40 / callers * 3
 	tag := fmt.Sprintf("free history #%d over %s (%d callers, %d ids)", h, transport, callers, pool)
-	type callRec struct {
-		id, call   string
-		t0, t1     int64
-		rtok, rid  string
-		err        error
-	}
 	var mu sync.Mutex
 	var recs []callRec
 	var callerGot []ret2
@@ -576,11 +589,12 @@ func (p c05) free(r *core.Result, g *c05rig, transport string, seed uint64, h in
 				t0 := time.Now().UnixNano()
 				resp, err := g.cc.ProcessCommand(ctx, c05request(id, calltok))
 				t1 := time.Now().UnixNano()
+				ctxEnded := ctx.Err() != nil
 				atomic.AddInt64(&inflight, -1)
 				timer.Stop()
 				cancel()
 				close(late)
-				rec := callRec{id: id, call: calltok, t0: t0, t1: t1, err: err}
+				rec := callRec{id: id, call: calltok, t0: t0, t1: t1, err: err, ctxEnded: ctxEnded}
 				if resp != nil {
 					rec.rtok, rec.rid = c05rtok(resp), resp.ID
 				}
@@ -631,6 +645,11 @@ func (p c05) free(r *core.Result, g *c05rig, transport string, seed uint64, h in
 			}
 		case errors.Is(rec.err, context.Canceled) || errors.Is(rec.err, context.DeadlineExceeded):
 			r.Count("context_errors", 1)
+		case (transport == rig.WS || transport == rig.WSS) && strings.Contains(rec.err.Error(), "ws transport: send:") && c05cancelledBefore(recs, rec):
+			// Not a pending request at all: the WebSocket transport expires its connection's write deadline to
+			// interrupt a Send whose context ended mid-write, which (by its own documentation) leaves the writing
+			// side in a permanent error state - later requests of this history cannot be sent any more.
+			r.Count("ws_send_failed_after_a_cancelled_send", 1)
 		default:
 			r.Violate("C05/unexpected-error", fmt.Sprintf("%s: call %s returned an error that is neither its context's nor the in-use rejection: %v", tag, rec.call, rec.err))
 		}
